@@ -188,3 +188,55 @@ func VP_C02_cookie_comes_from_the_packet() {
 	}
 	vpAssert(len(trB.out) == 2 && len(trB.out[1]) >= 14 && vpLE32(trB.out[1], 10) != 0, "a-client-that-carries-no-cookie-is-refused")
 }
+
+//vp:property C01 C03
+//vp:bounds token authentication on; the cookie check accepts and binds the tunnel to the host the token names (as the security package's check does); handshake, tunnel-create and tunnel-auth succeed; then the client stops (drops), or asks for a channel to the token's host or to another host, which the host check allows or refuses
+//vp:assume goroutines the packet loop may have started run whenever it waits and after it has ended
+//vp:reach no-channel channel
+func VP_C01_dial_needs_channel_create() {
+	vpResetC01()
+	vpResetHandlers()
+	gw := &Gateway{TokenAuth: true}
+	gw.CheckPAACookie = func(ctx context.Context, c string) (bool, error) {
+		if t, ok := ctx.Value(CtxTunnel).(*Tunnel); ok && t != nil {
+			t.TargetServer = "h:3389"
+		}
+		return true, nil
+	}
+	allow := vpBool("host-check-allows")
+	var checked []string
+	gw.CheckHost = func(ctx context.Context, h string) (bool, error) {
+		checked = append(checked, h)
+		return allow, nil
+	}
+	vpAssume(!vpBool("dialfail1"))
+	in := [][]byte{
+		vpPacket(PKT_TYPE_HANDSHAKE_REQUEST, []byte{1, 0, 0, 0, 2, 0}),
+		vpPacket(PKT_TYPE_TUNNEL_CREATE, []byte{0, 0, 0, 0, 1, 0, 0, 0, 4, 0, 'A', 0, 'B', 0}),
+		vpSetupPacket(2),
+	}
+	next := vpIntRange("after-tunnel-auth", 0, 2) // 0 the client drops, 1 channel to the token's host, 2 channel to another host
+	switch next {
+	case 1:
+		in = append(in, vpPacket(PKT_TYPE_CHANNEL_CREATE, []byte{1, 0, 0x3d, 0x0d, 3, 0, 2, 0, 'h', 0}))
+	case 2:
+		in = append(in, vpPacket(PKT_TYPE_CHANNEL_CREATE, []byte{1, 0, 0x3d, 0x0d, 3, 0, 2, 0, 'z', 0}))
+	}
+	tr := &vpTransport{in: in, yieldOnRead: true}
+	tun := &Tunnel{transportIn: tr, transportOut: tr, User: vpUser()}
+	ctx := context.WithValue(vpCtx(), CtxTunnel, tun)
+	NewProcessor(gw, tun).Process(ctx)
+	vpRunTasks()
+	vpObserve("dials", uint64(len(vpDialLog)))
+	if next == 0 || !allow {
+		vpReach("no-channel")
+		vpAssert(len(vpDialLog) == 0, "no-connection-to-any-host-without-an-accepted-channel-create")
+	} else {
+		vpReach("channel")
+		want := []string{"", "h:3389", "z:3389"}[next]
+		vpAssert(len(vpDialLog) == 1 && vpDialLog[0] == want && len(checked) == 1 && checked[0] == want, "the-one-connection-goes-to-the-host-that-was-asked-for-and-checked")
+	}
+	for _, c := range vpDialConns {
+		vpAssert(c.closed, "every-host-connection-is-closed-when-the-tunnel-has-ended")
+	}
+}
